@@ -2343,17 +2343,16 @@ impl Ord for Element {
         if let (Some(name1), Some(name2)) = (self.item_name(), other.item_name()) {
             // both items have a name - try to decompose the name into a base and an index
             // this allows for a more natural sorting of indexed items (e.g. "item2" < "item10")
-            if let (Some((base1, idx1)), Some((base2, idx2))) =
-                (decompose_item_name(&name1), decompose_item_name(&name2))
-            {
-                if base1 == base2 {
-                    let result = idx1.cmp(&idx2);
-                    if result != Ordering::Equal {
-                        return result;
-                    }
-                }
+            // The key of each name is (base, index); a name without an index is its own base. Comparing these keys
+            // is a total order, while switching between numeric and textual comparison per pair of names is not
+            // transitive (a2 < a10 < a1b < a2).
+            let key1 = decompose_item_name(&name1).map_or_else(|| (name1.clone(), None), |(base, idx)| (base, Some(idx)));
+            let key2 = decompose_item_name(&name2).map_or_else(|| (name2.clone(), None), |(base, idx)| (base, Some(idx)));
+            let result = key1.cmp(&key2);
+            if result != Ordering::Equal {
+                return result;
             }
-            // if the decomposition fails, then just compare the full item names
+            // same base and index (e.g. "item01" and "item1"): compare the full item names
             let result = name1.cmp(&name2);
             if result != Ordering::Equal {
                 return result;
